@@ -166,6 +166,19 @@ func runC14(c *core.Ctx) {
 				break
 			}
 		}
+		// on any single-cause chain UnwrapAll/Cause is the end of the UnwrapOnce walk
+		if p := core.Try(func() {
+			root := x
+			for y := errors.UnwrapOnce(root); y != nil; y = errors.UnwrapOnce(root) {
+				root = y
+			}
+			c.Count("root-comparisons", 1)
+			if ua, oc := errors.UnwrapAll(x), errors.Cause(x); !sameErr(ua, root) || !sameErr(oc, root) {
+				c.Violate("root/differs/"+famShort(l.Fam), "Cause/UnwrapAll is not the end of the single-cause chain", fmt.Sprintf("%s\n%T: root %T, Cause %T, UnwrapAll %T", t, x, root, oc, ua))
+			}
+		}); p != nil {
+			c.Violate("root/panic/"+famShort(l.Fam), "Cause/UnwrapAll panicked", fmt.Sprintf("%s\n%T: %v", t, x, p))
+		}
 		if allCause {
 			c.Count("cause-comparisons", 1)
 			pc, oc, ua := pkgErr.Cause(x), errors.Cause(x), errors.UnwrapAll(x)
